@@ -6,6 +6,7 @@ import LarkVerif.LexModel
 import LarkVerif.EarleyExec
 import LarkVerif.LRCheck
 import LarkVerif.LRComplete
+import LarkVerif.LRClosedCheck
 import LarkVerif.LALRTable
 import LarkVerif.Shape
 import LarkVerif.Scan
@@ -233,6 +234,21 @@ def runLrParse (j : Json) : Except String Json := do
   let T := F.toTable
   let G : Grammar := ⟨rules⟩
   let safe := checkSafe G F s0
+  -- completeness certificate (optional fields): NULLABLE/FIRST tables and an item-lookahead annotation
+  let closed : Json ← match j.getObjVal? "ann" with
+    | .error _ => pure Json.null
+    | .ok annJ => do
+      let nuser ← getNat j "nuser"
+      let nullableL ← natListOf (← j.getObjVal? "nullable")
+      let firstL ← (← getArr j "first").mapM fun e => do
+        match (← e.getArr?).toList with
+        | [a, l] => pure (← a.getNat?, ← natListOf l)
+        | _ => throw "first entry"
+      let ann ← (← annJ.getArr?).toList.mapM fun e => do
+        match (← e.getArr?).toList with
+        | [q, r, d, l] => pure ((← q.getNat?, rules.getD (← r.getNat?) ⟨0, []⟩, ← d.getNat?), ← natListOf l)
+        | _ => throw "ann entry"
+      pure (Json.bool (checkClosed ⟨rules.take nuser⟩ F (fnOf nullableL firstL) ⟨ann⟩ s0 eof))
   -- the observable state after every consumed prefix
   let describe (cfg : Config) : Json :=
     let q := cfg.states.headD 0
@@ -264,7 +280,7 @@ def runLrParse (j : Json) : Except String Json := do
   -- cross-check with the function the theorems are about
   let whole := match parse T eof fuel toks with
     | Outcome.accept _ => "accept" | Outcome.error => "error" | Outcome.loop => "loop" | Outcome.crash => "crash" | Outcome.shifted _ => "shifted"
-  pure (Json.mkObj [("safe", Json.bool safe), ("outcome", Json.str outcome), ("errorAt", natJ errorAt), ("steps", Json.arr steps), ("parse", Json.str whole)])
+  pure (Json.mkObj [("safe", Json.bool safe), ("closed", closed), ("outcome", Json.str outcome), ("errorAt", natJ errorAt), ("steps", Json.arr steps), ("parse", Json.str whole)])
 
 open ShapeProto in
 def symInfoOf (j : Json) : Except String SymInfo := do
